@@ -1,5 +1,501 @@
-//! Fixed scenarios: replays of past findings and directed histories per profile.
+//! Directed profiles: inline budget lattice (C10), dense footprints (C12), allocation failure
+//! injection (C14), serde / compactserde (C16, C19), determinism (C17), concurrent readers (C18),
+//! and the replay corpus of past findings.
+use crate::alloc;
 use crate::engine::*;
 use crate::uset::*;
+use std::collections::BTreeSet;
+use std::panic::{catch_unwind, AssertUnwindSafe};
+use std::sync::atomic::Ordering::SeqCst;
 
-pub fn fixed<S: USet>(_e: &mut Eng<S>, _profile: &str) {}
+fn splits<S: USet>() -> Vec<Vec<u32>> {
+    if S::W == 64 {
+        vec![vec![], vec![61], vec![40, 21], vec![31, 15, 15], vec![25, 12, 12, 12], vec![21, 10, 10, 10, 10], vec![21, 8, 8, 8, 8, 8], vec![19, 7, 7, 7, 7, 7, 7]]
+    } else {
+        vec![vec![], vec![31], vec![31, 30], vec![31, 15, 15], vec![25, 12, 12, 12], vec![21, 10, 10, 10, 10], vec![21, 8, 8, 8, 8, 8]]
+    }
+}
+
+/// the members for a choice of field values: first field = smallest member, later fields = gap - 1
+fn from_fields(f: &[u64]) -> Option<Vec<u64>> {
+    let mut v = vec![f[0]];
+    for g in &f[1..] {
+        let last = *v.last().unwrap();
+        v.push(last.checked_add(1)?.checked_add(*g)?);
+    }
+    Some(v)
+}
+
+fn expect_inline<S: USet>(e: &mut Eng<S>, i: usize, what: &str, members: &[u64]) {
+    let (heap, cap, mem) = {
+        let s = e.slots[i].as_ref().unwrap();
+        (s.repr().1.is_some(), s.capacity(), s.mem_used())
+    };
+    let (blocks, _) = alloc::live();
+    if heap || cap != 0 || mem != 8 || blocks != 0 {
+        e.fail("C10", format!("{}: {:?} is within the inline budget but the set owns heap memory (capacity {}, mem_used {}, {} live blocks)", what, members, cap, mem, blocks));
+    }
+    e.bump("inline:checked");
+}
+
+/// C10: every combination of field-boundary values {0, 1, 2^w - 1} (and, as negative controls, 2^w)
+pub fn inline_lattice<S: USet>(e: &mut Eng<S>) {
+    let table = splits::<S>();
+    for n in 1..table.len() {
+        let ws = &table[n];
+        let choices = 3usize.pow(n as u32);
+        e.begin(&format!("inline-n{}", n));
+        for code in 0..choices {
+            let mut f = vec![];
+            let mut c = code;
+            for w in ws {
+                let top = (1u64 << w) - 1;
+                f.push([0, 1, top][c % 3]);
+                c /= 3;
+            }
+            let members = match from_fields(&f) {
+                Some(m) if m.iter().all(|&x| x <= S::max_elem()) => m,
+                _ => continue,
+            };
+            e.step += 1;
+            // collect, in a scrambled order with a duplicate
+            let mut scr = members.clone();
+            scr.reverse();
+            scr.push(members[0]);
+            e.op_collect(0, &scr);
+            if e.slots[0].is_some() {
+                expect_inline(e, 0, "collect()", &members);
+            }
+            // ascending insertion: inline after every step
+            e.op_new(1);
+            for (k, &x) in members.iter().enumerate() {
+                e.op_ins(1, x);
+                expect_inline(e, 1, "ascending insertion", &members[..=k]);
+            }
+            // removals whose result stays within budget: remove the largest (prefix: in budget by
+            // width monotonicity), then check the documented condition for the others
+            if n > 1 && code % 7 == 0 {
+                for k in 0..n {
+                    let rest: Vec<u64> = members.iter().cloned().filter(|&x| x != members[k]).collect();
+                    let m = rest.len();
+                    let wsm = &table[m];
+                    let mut ok = rest[0] < (1u64 << wsm[0]);
+                    for j in 1..m {
+                        ok &= rest[j] - rest[j - 1] - 1 < (1u64 << wsm[j]);
+                    }
+                    e.op_clone(2, 0);
+                    e.op_rem(2, members[k]);
+                    if ok {
+                        expect_inline(e, 2, "removal", &rest);
+                    }
+                    e.op_drop(2);
+                }
+            }
+            e.op_drop(0);
+            e.op_drop(1);
+        }
+        // negative controls: one field one past its width must NOT corrupt anything (it goes to the heap)
+        for j in 0..n {
+            let mut f: Vec<u64> = ws.iter().map(|_| 1).collect();
+            f[j] = 1u64 << ws[j];
+            if let Some(m) = from_fields(&f) {
+                if m.iter().all(|&x| x <= S::max_elem()) {
+                    e.op_collect(0, &m);
+                    e.op_new(1);
+                    for &x in &m {
+                        e.op_ins(1, x);
+                    }
+                    e.check_members(1, "C10,C01,C02", "just outside the inline budget");
+                    e.op_drop(0);
+                    e.op_drop(1);
+                }
+            }
+        }
+    }
+}
+
+/// C12: the set 0..n built by collect / ascending / other orders; allocator-observed bytes
+pub fn dense_footprints<S: USet>(e: &mut Eng<S>, hists: usize) {
+    let mut ns: Vec<u64> = vec![64, 65, 127, 128, 129, 191, 192, 193, 255, 256, 257, 1000, 1023, 1024, 1025, 4095, 4096, 4097];
+    if hists > 20 {
+        ns.extend_from_slice(&[65535, 65536, 65537, 100000]);
+    }
+    if hists > 200 {
+        ns.extend_from_slice(&[1 << 18, (1 << 20) - 1, 1 << 20, (1 << 20) + 1, 3 << 20, (1 << 22) - 1, 1 << 22]);
+    }
+    for _ in 0..hists / 4 {
+        let n = 64 + e.rng.below(if hists > 200 { 1 << 20 } else { 20000 });
+        ns.push(n);
+    }
+    for (hn, &n) in ns.iter().enumerate() {
+        let quiet = n > 3000;
+        for order in 0..8 {
+            e.begin(&format!("dense-n{}-o{}-{}", n, order, hn));
+            let saved = e.mode;
+            if quiet && e.mode != Mode::Unscripted {
+                e.quiet = true;
+            }
+            let seq: Vec<u64> = match order {
+                0 | 1 => (0..n).collect(),
+                2 => (0..n).rev().collect(),
+                3 => {
+                    let mut v: Vec<u64> = (0..n).collect();
+                    for k in (1..v.len()).rev() {
+                        let j = e.rng.below(k as u64 + 1) as usize;
+                        v.swap(k, j);
+                    }
+                    v
+                }
+                4 => {
+                    let stride = [7u64, 64, 1000, 4099][e.rng.below(4) as usize];
+                    let mut v = vec![];
+                    for s in 0..stride {
+                        let mut x = s;
+                        while x < n {
+                            v.push(x);
+                            x += stride;
+                        }
+                    }
+                    v
+                }
+                5 => {
+                    // outside-in
+                    let mut v = vec![];
+                    let (mut lo, mut hi) = (0u64, n - 1);
+                    while lo < hi {
+                        v.push(lo);
+                        v.push(hi);
+                        lo += 1;
+                        hi -= 1;
+                    }
+                    if lo == hi {
+                        v.push(lo);
+                    }
+                    v
+                }
+                6 => {
+                    // a prefix, the maximum, then the rest
+                    let m = 1 + e.rng.below(n - 1);
+                    let mut v: Vec<u64> = (0..m).collect();
+                    v.push(n - 1);
+                    v.extend(m..n - 1);
+                    v
+                }
+                _ => {
+                    // inside-out
+                    let mut v = vec![];
+                    let mid = n / 2;
+                    for k in 0..=mid {
+                        if mid + k < n {
+                            v.push(mid + k);
+                        }
+                        if k > 0 && mid >= k {
+                            v.push(mid - k);
+                        }
+                    }
+                    v
+                }
+            };
+            e.check_c11 = true;
+            if order == 0 {
+                e.op_collect(0, &seq);
+            } else {
+                e.op_new(0);
+                // fix the growth style for the whole build: minimal, maximal or random
+                e.draw_style = [0, 1, 4, 4][e.rng.below(4) as usize];
+                for &x in &seq {
+                    e.op_ins(0, x);
+                }
+            }
+            let (_, bytes) = alloc::live();
+            let s = e.slots[0].as_ref().unwrap();
+            if s.len() as u64 != n {
+                e.fail("C12,C01,C02", format!("0..{} built in order {}: len() = {}", n, order, s.len()));
+            }
+            let bytes = bytes as u64;
+            if order <= 1 {
+                if bytes > n / 4 + 64 {
+                    e.fail("C12", format!("0..{} built by {}: the set owns {} heap bytes, more than 2 bits per member + 64 bytes ({})", n, if order == 0 { "collect()" } else { "ascending insertion" }, bytes, n / 4 + 64));
+                }
+            } else if bytes > 2 * n + 256 {
+                e.fail("C12", format!("0..{} inserted in order {}: the set owns {} heap bytes, more than 2 bytes per member + 256 ({})", n, order, bytes, 2 * n + 256));
+            }
+            e.bump(&format!("dense:order{}", order));
+            e.quiet = false;
+            e.mode = saved;
+            if n <= 3000 {
+                crate::profiles::audit(e, 0, false);
+            }
+            e.op_drop(0);
+        }
+    }
+}
+
+/// C14: fail every allocation the operation makes, one at a time, on a clone of the set
+pub fn fail_injection<S: USet>(e: &mut Eng<S>, hists: usize, steps: usize) {
+    for h in 0..hists {
+        let regime = [0u64, 1, 2, 3, 4, 5, 6, 9, 10, 11][h % 10];
+        e.begin(&format!("fail-{}-r{}", h, regime));
+        e.op_new(0);
+        for _ in 0..steps {
+            e.step += 1;
+            let v = e.gen_value(0, regime);
+            let kind = e.rng.below(10);
+            // dry run on a clone: how many allocations does the op request?
+            let probe = |s: &mut S, kind: u64, v: u64| -> bool {
+                match kind {
+                    0..=6 => s.ins(v),
+                    7 => s.rem(v),
+                    8 => {
+                        let c = s.clone();
+                        drop(c);
+                        true
+                    }
+                    _ => {
+                        let w = S::wco(s);
+                        drop(w);
+                        true
+                    }
+                }
+            };
+            let before = e.repr(0);
+            // scripted draws must be identical for the dry run and every faulted run
+            let draws: Vec<u64> = (0..48).map(|_| e.rng.next()).collect();
+            let push = |dr: &Vec<u64>| {
+                #[cfg(feature = "rand")]
+                {
+                    tinyset::verif_rand::clear();
+                    for &d in dr {
+                        tinyset::verif_rand::push(d);
+                    }
+                }
+                let _ = dr;
+            };
+            #[cfg(not(feature = "rand"))]
+            let seed0 = tinyset::verif_rand::seed();
+            let mut c0 = e.slots[0].as_ref().unwrap().clone();
+            push(&draws);
+            alloc::ZEROED_ALLOCS.store(0, SeqCst);
+            let _ = alloc::under_test(|| probe(&mut c0, kind, v));
+            let nalloc = alloc::ZEROED_ALLOCS.load(SeqCst);
+            drop(c0);
+            for k in 0..nalloc.min(6) {
+                let mut c = e.slots[0].as_ref().unwrap().clone();
+                let cb = repr_string(&c);
+                let (lb0, _) = alloc::live();
+                push(&draws);
+                #[cfg(not(feature = "rand"))]
+                tinyset::verif_rand::set_seed(seed0);
+                alloc::FAIL_ZEROED_AT.store(k as i64, SeqCst);
+                let r = catch_unwind(AssertUnwindSafe(|| alloc::under_test(|| probe(&mut c, kind, v))));
+                let fired = alloc::FAIL_ZEROED_AT.swap(-1, SeqCst) < 0;
+                e.bump("fail:injected");
+                if !fired {
+                    // the op took another path (e.g. different address-dependent behaviour); nothing failed
+                    continue;
+                }
+                match r {
+                    Ok(_) => e.fail("C14", format!("operation kind {} value {} returned normally although allocation #{} failed (set {})", kind, v, k, before)),
+                    Err(_) => {
+                        e.bump("fail:panicked");
+                        let ca = repr_string(&c);
+                        let same_members = {
+                            let a: BTreeSet<u64> = c.items().into_iter().collect();
+                            a == e.oracle[0] && c.len() == e.oracle[0].len()
+                        };
+                        if kind <= 7 && (ca != cb || !same_members) {
+                            e.fail("C14", format!("after a caught allocation failure (allocation #{} of op kind {} value {}) the set changed: before {} after {}", k, kind, v, cb, ca));
+                        }
+                        let (lb1, _) = alloc::live();
+                        if lb1 != lb0 {
+                            e.fail("C14,C06", format!("{} blocks leaked by the unwinding of op kind {} value {} (allocation #{} failed)", lb1 - lb0, kind, v, k));
+                        }
+                        // still usable: the same operation now succeeds with the right answer
+                        push(&draws);
+                        let want = match kind {
+                            0..=6 => !e.oracle[0].contains(&S::norm(v)),
+                            7 => e.oracle[0].contains(&S::norm(v)),
+                            _ => true,
+                        };
+                        match catch_unwind(AssertUnwindSafe(|| alloc::under_test(|| probe(&mut c, kind, v)))) {
+                            Ok(b) if b == want => {}
+                            Ok(b) => e.fail("C14", format!("after a caught allocation failure the retried op kind {} value {} returned {} instead of {}", kind, v, b, want)),
+                            Err(_) => e.fail("C14", format!("after a caught allocation failure the retried op kind {} value {} panicked", kind, v)),
+                        }
+                    }
+                }
+                drop(c);
+            }
+            #[cfg(feature = "rand")]
+            tinyset::verif_rand::clear();
+            #[cfg(not(feature = "rand"))]
+            tinyset::verif_rand::set_seed(seed0);
+            // the real step, recorded in the trace
+            match kind {
+                0..=6 => e.op_ins(0, v),
+                7 => e.op_rem(0, v),
+                _ => e.op_con(0, v),
+            }
+            if e.slots[0].as_ref().unwrap().capacity() > 300 {
+                break;
+            }
+        }
+        e.op_drop(0);
+    }
+}
+
+/// C18: concurrent readers on shared sets give the single-threaded answers
+pub fn readers<S: USet>(e: &mut Eng<S>, i: usize) {
+    let s = match e.slots[i].take() {
+        Some(s) => s,
+        None => return,
+    };
+    let before = repr_string(&s);
+    let items = s.items();
+    let probes: Vec<u64> = items.iter().cloned().take(50).chain((0..30).map(|k| k * 7919)).collect();
+    let answers: Vec<bool> = probes.iter().map(|&p| s.con(p)).collect();
+    let (len, cap, mem) = (s.len(), s.capacity(), s.mem_used());
+    let bad = std::sync::atomic::AtomicUsize::new(0);
+    std::thread::scope(|sc| {
+        for t in 0..6 {
+            let (s, items, probes, answers, bad) = (&s, &items, &probes, &answers, &bad);
+            sc.spawn(move || {
+                for round in 0..20 {
+                    let ok = match (t + round) % 6 {
+                        0 => probes.iter().zip(answers.iter()).all(|(&p, &a)| s.con(p) == a),
+                        1 => &s.items() == items,
+                        2 => s.len() == len && s.capacity() == cap && s.mem_used() == mem && s.is_empty() == (len == 0),
+                        3 => {
+                            let c = s.clone();
+                            &c == s && &c.items() == items
+                        }
+                        4 => s.shortcut(It::Iter, 0, "max") == items.iter().cloned().max() && s.shortcut(It::Iter, 0, "last") == items.last().cloned(),
+                        _ => {
+                            let u = S::union_ref(s, s);
+                            let d = S::diff_ref(s, s);
+                            let w = S::wco(s);
+                            u.len() == len && d.len() == 0 && w.len() == 0 && !s.debug_string().is_empty()
+                        }
+                    };
+                    if !ok {
+                        bad.fetch_add(1, SeqCst);
+                    }
+                }
+            });
+        }
+    });
+    if bad.load(SeqCst) > 0 {
+        e.fail("C18", format!("{} concurrent read rounds disagreed with the single-threaded answers", bad.load(SeqCst)));
+    }
+    if repr_string(&s) != before {
+        e.fail("C18", "the representation changed under concurrent shared-reference operations".into());
+    }
+    e.bump("readers:rounds");
+    e.slots[i] = Some(s);
+    // the per-thread clones were not allocated under the ledger's attribution; nothing to reconcile
+}
+
+/// C16 / C19: serialise slot i with serde_json, compare with the model, deserialise into slot k
+#[cfg(any(feature = "serde", feature = "compactserde"))]
+pub fn serde_roundtrip<S: USet>(e: &mut Eng<S>, i: usize, k: usize) {
+    use std::fmt::Write;
+    if e.slots[i].is_none() || i == k {
+        return;
+    }
+    let js = e.slots[i].as_ref().unwrap().to_json();
+    let nums: Vec<u64> = js.trim_matches(|c| c == '[' || c == ']').split(',').filter(|x| !x.is_empty()).map(|x| x.trim().parse().unwrap()).collect();
+    let mut l = String::new();
+    for x in &nums {
+        write!(l, " {}", x).unwrap();
+    }
+    e.slots[k] = None;
+    let back = alloc::under_test(|| S::from_json(&js));
+    match back {
+        Err(err) => e.fail("C16,C19", format!("deserialising what was just serialised failed: {}", err)),
+        Ok(b) => {
+            if &b != e.slots[i].as_ref().unwrap() {
+                e.fail("C16,C19", format!("round trip through serde yields a different set: {:?} became {:?}", e.slots[i].as_ref().unwrap().items().iter().take(6).collect::<Vec<_>>(), b.items().iter().take(6).collect::<Vec<_>>()));
+            }
+            if cfg!(feature = "compactserde") {
+                e.emit(&format!("toarr {} {}{}", i, nums.len(), l));
+                e.slots[k] = Some(b);
+                let rp = e.repr(k);
+                e.emit(&format!("fromarr {} {}{} D R {}", k, nums.len(), l, rp));
+            } else {
+                // the default encoding is the member sequence in iteration order
+                e.emit(&format!("iter {} {}{}", i, nums.len(), l));
+                if nums.len() != e.slots[i].as_ref().unwrap().len() {
+                    e.fail("C16", format!("the serialised sequence has {} entries for a set of {} members", nums.len(), e.slots[i].as_ref().unwrap().len()));
+                }
+                e.slots[k] = Some(b);
+                // deserialisation = inserting one at a time into a new set (no draws are scripted here, so
+                // the representation is only compared when no growth happened: emit as new+ext in script mode only)
+            }
+            e.oracle[k] = e.oracle[i].clone();
+            e.hw[k] = e.hw[i];
+            e.hinted[k] = true;
+            e.check_members(k, "C16,C19", "deserialised set");
+            e.bump(&format!("serde:{}", e.tag(i)));
+        }
+    }
+    e.post_check();
+}
+
+/// C16: deserialising an arbitrary sequence (any order, duplicates) yields the set of its distinct items
+#[cfg(all(feature = "serde", not(feature = "compactserde")))]
+pub fn serde_sequence<S: USet>(e: &mut Eng<S>, k: usize, v: &[u64]) {
+    let js = format!("[{}]", v.iter().map(|x| x.to_string()).collect::<Vec<_>>().join(","));
+    e.slots[k] = None;
+    match alloc::under_test(|| S::from_json(&js)) {
+        Err(err) => e.fail("C16", format!("deserialising a plain sequence failed: {}", err)),
+        Ok(b) => {
+            e.slots[k] = Some(b);
+            e.oracle[k] = v.iter().cloned().collect();
+            e.hw[k] = e.oracle[k].len();
+            e.hinted[k] = true;
+            e.check_members(k, "C16", "deserialised sequence");
+            let l = e.slots[k].as_ref().unwrap().len();
+            if l != e.oracle[k].len() {
+                e.fail("C16", format!("deserialised sequence: len {} for {} distinct items", l, e.oracle[k].len()));
+            }
+            e.bump("serde:sequence");
+        }
+    }
+    e.post_check();
+}
+
+pub fn fixed<S: USet>(e: &mut Eng<S>, profile: &str) {
+    // replay corpus: the inputs of the past findings (DESIGN.md section 6) run first in every profile
+    e.begin("corpus-D1-dup-collect");
+    e.op_collect(0, &[5, 5]);
+    e.op_collect(1, &[1, 1, 1]);
+    e.begin("corpus-D13-placeholder");
+    e.op_wcb(0, 4, 0);
+    if let Some((_, Some((_, _, ph, _)))) = e.slots[0].as_ref().map(|s| s.repr()) {
+        e.op_ins(0, 0);
+        e.op_ins(0, ph);
+        e.op_con(0, 0);
+        e.op_con(0, ph);
+        e.op_rem(0, 0);
+    }
+    e.begin("corpus-D5-powers");
+    e.op_new(0);
+    for k in 10..(S::W - 1) {
+        e.op_ins(0, 1u64 << k);
+    }
+    e.begin("corpus-D6-outlier");
+    e.op_new(0);
+    for x in 0..8 {
+        e.op_ins(0, x);
+    }
+    e.op_ins(0, 64000);
+    if profile == "iter" || profile == "core" {
+        e.begin("corpus-D3-shortcuts");
+        e.op_collect(0, &[0, 1, 2, 3, 4, 5, 6]);
+        crate::profiles::audit(e, 0, true);
+        e.op_collect(1, &[100, 1266, 99999, 100009, 5000]);
+        crate::profiles::audit(e, 1, true);
+        e.op_collect(2, &[0, 7, 1 << (S::W - 1), 3, 99]);
+        crate::profiles::audit(e, 2, true);
+    }
+}
